@@ -169,7 +169,7 @@ func runC16(r *R) {
 		for _, ret := range Returns(fn) {
 			for _, e := range ReturnOperands(ret)[1] {
 				if g, ok := LoadedGlobal(e); ok && g == dc+".ErrInstanceTypesNotConfigured" {
-					gd, _ := Guard(fn, nil, ret, EqC("len(cc.InstanceTypes) == 0", lenVP, ConstIntVP(0)))
+					gd, _ := Guard(fn, nil, ret, IntC("len(cc.InstanceTypes) == 0", lenVP, token.EQL, 0, true))
 					okEmpty = gd
 				}
 			}
@@ -192,9 +192,11 @@ func runC16(r *R) {
 			okLess := false
 			if less != nil {
 				for _, ret := range Returns(less) {
-					bo, ok := Strip(ret.Results[0]).(*ssa.BinOp)
-					if ok && bo.Op == token.GTR && strings.Contains(Canon(bo.X), "Container.Priority") && strings.Contains(Canon(bo.Y), "Container.Priority") &&
-						strings.Contains(Canon(bo.X), "param:i") && strings.Contains(Canon(bo.Y), "param:j") {
+					// less(i, j) ≡ Priority[i] > Priority[j], however it is written (a > b, b < a)
+					lo, hi, strict, ok := NormLess(ret.Results[0])
+					if ok && strict && strings.Contains(Canon(hi), "Container.Priority") && strings.Contains(Canon(lo), "Container.Priority") &&
+						strings.Contains(Canon(hi), "param:i") && strings.Contains(Canon(lo), "param:j") &&
+						!strings.Contains(Canon(hi), "param:j") && !strings.Contains(Canon(lo), "param:i") {
 						okLess = true
 					}
 				}
